@@ -849,15 +849,15 @@ pub fn sample(g: &G, rng: &mut Rng, nsym: u8, out: &mut Vec<u8>, fuel: &mut i64,
                     some(&[11, 12, 23, 0, 1, 2, 3, 4, 5, 6, 22, 16, 17, 18, 19], 0, 3, rng, out);
                 }
                 4 => some(&[11, 12, 23, 0, 2, 4, 6, 7, 15, 22], 1, 4, rng, out),
-                5 => some(&[8, 9, 10, 14, 15], 1, 3, rng, out),
+                5 => some(&[8, 9, 10, 14, 15, 24, 25], 1, 3, rng, out),
                 6 => some(&[8, 14], 1, 3, rng, out),
                 7 => match rng.below(4) {
                     0 => out.push(9),
                     1 => out.extend_from_slice(&[10, 9]),
                     2 => out.push(10),
-                    _ => out.push(*rng.pick(&[14u8, 15])),
+                    _ => out.push(*rng.pick(&[14u8, 15, 24, 25])),
                 },
-                8 => some(&[8, 9, 10, 14], 0, 3, rng, out),
+                8 => some(&[8, 9, 10, 14, 24, 25], 0, 3, rng, out),
                 9 | 11 | 12 => {
                     some(&[0, 2, 4, 1], 1, 3, rng, out);
                     some(&[11, 12], 0, 2, rng, out);
@@ -881,11 +881,11 @@ pub fn sample(g: &G, rng: &mut Rng, nsym: u8, out: &mut Vec<u8>, fuel: &mut i64,
         }
         Padded(a) => {
             for _ in 0..rng.below(3) {
-                out.push(*rng.pick(&[8u8, 9, 10, 14]));
+                out.push(*rng.pick(&[8u8, 9, 10, 14, 24, 25]));
             }
             sample(a, rng, nsym, out, fuel, rec);
             for _ in 0..rng.below(3) {
-                out.push(*rng.pick(&[8u8, 9, 10, 14]));
+                out.push(*rng.pick(&[8u8, 9, 10, 14, 24, 25]));
             }
         }
         Then(a, b) | IgnoreThen(a, b) | ThenIgnore(a, b) => {
